@@ -95,7 +95,7 @@ def _kf_framing(framing, kind, f, pdu, uid, dk):
     if framing == 'binary':
         body = bytes([uid]) + pdu
         wire = body + refframe.crc_wire(body)   # bytes between the delimiters before escaping
-        if any(b in (0x7B, 0x7D) for b in wire):
+        if (0x7D in wire) or any(b in (0x7B, 0x7D) for b in pdu[1:]):
             return 'KF-BINARY-FRAMER-DELIMITER-BYTES'
     return None
 
